@@ -119,10 +119,15 @@ def dispatch_oracle(ix: Index, scn: dict) -> list[Violation]:
                 cur["removed"].add(d["sid"])
         elif kind == "pp":
             close_dispatch()
-            if d["state"] not in ("CONNECTED",):
-                continue
             mtype = d["type"]
             name = table.by_id.get(mtype)
+            if d["state"] == "HANDSHAKE_COMPLETE" and not d["data"] and name in ("PingRequest", "GetTimeRequest", "DisconnectRequest"):
+                # the internal request handlers exist from the moment the handshake completed: peer requests
+                # arriving during the hello/login exchange are answered too (no subscriber can exist yet)
+                expected_replies.append(({"PingRequest": "PingResponse", "GetTimeRequest": "GetTimeResponse", "DisconnectRequest": "DisconnectResponse"}[name], int(EPOCH + t) if name == "GetTimeRequest" else None, seq))
+                continue
+            if d["state"] not in ("CONNECTED",):
+                continue
             if name is None:
                 cur = {"kind": "unknown", "type": mtype, "name": None}
             else:
@@ -153,6 +158,11 @@ def dispatch_oracle(ix: Index, scn: dict) -> list[Violation]:
         elif kind == "fatal":
             if cur is not None:
                 cur["fatals"].append(d["err"])
+        elif kind == "cb_force_disconnect":
+            if cur is not None:
+                cur["in_cb_close"] = True
+        elif kind == "sock_close" and cur is not None and cur.get("in_cb_close"):
+            pass  # the close a subscriber performed from inside its callback: the delivery in progress goes on
         elif kind in ("recv", "recv_eof", "recv_err", "op_start", "poke", "sock_close") or ev[1] != (cur or {}).get("turn", ev[1]):
             close_dispatch()
     close_dispatch()
@@ -228,6 +238,9 @@ def gen_dispatch(rng: random.Random) -> dict:
                 beh.append({"on_call": n, "do": "remove_self"})
             elif r < 0.7:
                 beh.append({"on_call": n, "do": "remove", "sid": rng.choice(sids)})
+            elif r < 0.78:
+                # closes the session from inside the callback: the delivery in progress still reaches everyone registered
+                beh.append({"on_call": n, "do": "force_disconnect"})
             else:
                 beh.append({"on_call": n, "do": "add", "new": {"sid": sid + "x", "types": rng.sample(SUB_TYPES, rng.randint(1, 2))}})
         specs[sid] = (types, beh)
@@ -268,6 +281,15 @@ def gen_dispatch(rng: random.Random) -> dict:
         events.append({"at": {"t": 7.0}, "do": "dev", "act": {"msgs": [{"type": mid, "payload_hex": bad, "name": "#maybe_bad"}], "latency": 0.0}})
     elif r < 0.45:
         events.append({"at": {"t": 7.0}, "do": "dev", "act": {"msgs": [["DisconnectRequest", {}]], "latency": 0.0}})
+    if rng.random() < 0.3:
+        # peer requests during the hello/login exchange (behind or in front of the final response, same write)
+        login = steps[0]["login"]
+        hr = ["HelloResponse", {"api_version_major": 1, "api_version_minor": 10, "name": "simdev", "server_info": "sim"}]
+        reqs = [[pick(rng, ["PingRequest", "GetTimeRequest", "PingRequest", "GetTimeRequest", "DisconnectRequest"]), {}] for _ in range(rng.randint(1, 2))]
+        if login and rng.random() < 0.5:
+            device.setdefault("replies", {})["ConnectRequest"] = [{"msgs": (reqs + [["ConnectResponse", {}]]) if rng.random() < 0.4 else ([["ConnectResponse", {}]] + reqs)}]
+        else:
+            device.setdefault("replies", {})["HelloRequest"] = [{"msgs": (reqs + [hr]) if rng.random() < 0.4 else ([hr] + reqs)}]
     return {
         "family": "dispatch",
         "knobs": gen_knobs(rng),
